@@ -74,7 +74,8 @@ def derives_from(t, origin, p, depth=0):
         return False
     if t and t[0] == "ret" and isinstance(t[1], int) and t[1] < len(p.events):
         ev = p.events[t[1]]
-        return any(derives_from(a, origin, p, depth + 1) for a in ev.get("args", []))
+        return any(derives_from(a, origin, p, depth + 1) for a in ev.get("args", [])) or \
+            any(derives_from(v, origin, p, depth + 1) for _, v in ev.get("pointees", {}).values())
     return any(derives_from(x, origin, p, depth + 1) for x in t if isinstance(x, tuple))
 
 
@@ -214,6 +215,145 @@ def predicted_log(p):
 
 # ---- get_assertion ---------------------------------------------------------------------------
 
+def _strip_via(t):
+    while isinstance(t, tuple) and t and t[0] == "via":
+        t = t[2]
+    return t
+
+
+def _pointee(e, k):
+    """(place, value at call time) of reference argument k of call event e, or (None, None)"""
+    return e.get("pointees", {}).get(k, (None, None))
+
+
+def _struct_field(t, name):
+    if isinstance(t, tuple) and t and t[0] == "struct":
+        for k, v in t[2]:
+            if k == name:
+                return v
+    return None
+
+
+def assertion_binding_checks(p, ctx, payload, find, sign):
+    """C03, data flow of a successful get_assertion path (crypto itself is an environment call):
+    the signature returned is the one signature made on this path; it is made with the key of the
+    credential that came out of the lookup and that is named in the response; the signed message is the
+    serialisation of exactly the authenticator data that is returned, extended by exactly the request's
+    client data hash; that authenticator data is built for the request's rp_id and carries no attested
+    credential data."""
+    F = []
+    ev = env_calls(p)
+    sc = ga_scenario(p, ctx)
+    if sc:
+        # the same path with the other consent outcomes and with extension output, so that a difference in flags or
+        # extensions between what is signed and what is returned shows
+        vs = [sc]
+        for outcome, uv in (([True, False], False), ([True, True], True)):
+            v = json.loads(json.dumps(sc))
+            v["user"]["outcome"] = {"ok": outcome}
+            v["request"]["uv"] = uv
+            vs.append(v)
+            w = json.loads(json.dumps(v))
+            w["request"]["prf_eval"] = True
+            w["store"]["held"][0]["hmac"] = "both"
+            w["config"] = {"hmac_secret": "without_uv"}
+            vs.append(w)
+        sc = vs
+    bind = lambda o: o["result"]["ok"]["binding"] if isinstance(o["result"], dict) and "ok" in o["result"] else {}
+    not_verifying = lambda o: bind(o).get("verifies") is not True
+    resp = payload
+    while isinstance(resp, tuple) and resp and resp[0] != "struct":
+        # Ok payload: (struct Response ...)
+        nxt = [x for x in resp[1:] if isinstance(x, tuple)]
+        if not nxt:
+            break
+        resp = nxt[0]
+    if not (isinstance(resp, tuple) and resp and resp[0] == "struct" and "Response" in resp[1]):
+        raise Shape("get_assertion's Ok value is not a Response literal: %s" % tstr(payload)[:120])
+    r_auth = _struct_field(resp, "auth_data")
+    r_sig = _struct_field(resp, "signature")
+    r_cred = _struct_field(resp, "credential")
+    if r_auth is None or r_sig is None or r_cred is None:
+        raise Shape("Response literal without auth_data / signature / credential")
+    if len(sign) != 1:
+        F.append(Finding("C03", "ga.signatures-per-assertion", "a successful path makes %d signatures" % len(sign), sc, not_verifying, p))
+        return F
+    si, se = sign[0]
+    # -- authenticator data: for the request's rp_id, no attested credential data
+    new = calls(p, "AuthenticatorData::new")
+    if not new:
+        raise Shape("no AuthenticatorData::new call on a successful get_assertion path")
+    for _, ne in new:
+        a0 = _strip_via(ne["args"][0])
+        _, a0v = _pointee(ne, 0)
+        from_lookup = bool(find) and a0v is not None and derives_from(a0v, ("await", find[0][1]["ret"]), p) and tstr(chase(a0v)).endswith(".%d)" % ctx.pk["rp_id"])
+        if not ctx.is_input_ref(a0, ctx.ga["rp_id"]) and not from_lookup:
+            F.append(Finding("C03", "ga.authdata-rp-id", "the authenticator data is built for %s, not for the request's rp_id" % tstr(a0)[:80], sc,
+                             lambda o: bind(o).get("rp_hash_ok") is not True, p))
+    if calls(p, "set_attested_credential_data") or calls(p, "AuthenticatorData::set_attested_credential_data"):
+        F.append(Finding("C03", "ga.attested-data-in-assertion", "an assertion's authenticator data is given attested credential data", sc,
+                         lambda o: bind(o).get("attested") is not False, p))
+    # the returned authenticator data descends from such a constructor call
+    if not any(derives_from(r_auth, ne["ret"], p) for _, ne in new):
+        F.append(Finding("C03", "ga.returned-authdata-source", "the returned authenticator data is not the one built for this request (%s)" % tstr(r_auth)[:80], sc, not_verifying, p))
+    # -- the signed message
+    tv = [(i, e) for i, e in ev if e["callee"].endswith("AuthenticatorData::to_vec") and i < si]
+    msg_place, msg_val = _pointee(se, 1)
+    if msg_place is None:
+        raise Shape("cannot see what the sign call's message argument points to: %s" % tstr(se["args"][1])[:80])
+    src = [(i, e) for i, e in tv if e["ret"] == msg_val]
+    if not src:
+        F.append(Finding("C03", "ga.signed-message-source", "the signed buffer does not start as the serialised authenticator data (%s)" % tstr(msg_val)[:80], sc, not_verifying, p))
+    else:
+        ti, te = src[0]
+        _, ser = _pointee(te, 0)
+        if ser is None:
+            ser = te["args"][0]
+        if ser != r_auth:
+            F.append(Finding("C03", "ga.signed-authdata-differs", "the authenticator data that is signed (%s) is not the authenticator data that is returned (%s)" %
+                             (tstr(ser)[:60], tstr(r_auth)[:60]), sc, not_verifying, p))
+        touch = [(i, e) for i, e in ev if ti < i < si and any(pl == msg_place for pl, _ in e.get("pointees", {}).values())
+                 and not e["callee"].endswith(("Deref::deref", "DerefMut::deref_mut"))]
+        ext = [(i, e) for i, e in touch if e["callee"].endswith("Extend::extend") or e["callee"].endswith("::extend_from_slice")]
+        other = [e["callee"] for i, e in touch if (i, e) not in ext]
+        if len(ext) != 1 or other:
+            F.append(Finding("C03", "ga.signed-message-shape", "between serialisation and signing the buffer is touched by %s (expected: extended once, by the client data hash)" %
+                             [e["callee"] for _, e in touch], sc, not_verifying, p))
+        else:
+            h = _strip_via(ext[0][1]["args"][1])
+            hp, hv = _pointee(ext[0][1], 1)
+            ok_h = h == ctx.in_field(ctx.ga["client_data_hash"]) or ctx.is_input_ref(h, ctx.ga["client_data_hash"]) or \
+                (hv is not None and hv == ctx.in_field(ctx.ga["client_data_hash"]))
+            if not ok_h:
+                F.append(Finding("C03", "ga.signed-hash-source", "the signed buffer is extended by %s, not by the request's client data hash" % tstr(h)[:80], sc, not_verifying, p))
+    # -- the key
+    kp, kv = _pointee(se, 0)
+    pk = calls(p, "private_key_from_cose_key")
+    if kv is None or len(pk) != 1 or not derives_from(kv, pk[0][1]["ret"], p):
+        F.append(Finding("C03", "ga.signing-key-source", "the signing key is not the one converted from a stored COSE key (%s)" % (tstr(kv)[:80] if kv else "?"), sc, not_verifying, p))
+    elif find:
+        origin = ("await", find[0][1]["ret"])
+        cp, cv = _pointee(pk[0][1], 0)
+        if cv is None or not derives_from(cv, origin, p):
+            F.append(Finding("C03", "ga.signing-key-source", "the signing key does not come from the looked-up credential (%s)" % (tstr(cv)[:80] if cv else "?"), sc, not_verifying, p))
+        else:
+            # the credential named in the response is the one whose key signs
+            want_key_suffix = ".%d" % ctx.pk["key"]
+            t = chase(cv)
+            base = None
+            if t[0] == "proj" and t[2].endswith(want_key_suffix):
+                base = ("proj", t[1], t[2][:-len(want_key_suffix)]) if t[2][:-len(want_key_suffix)] else t[1]
+            if base is None:
+                raise Shape("the COSE key given to the converter is not a credential's key field: %s" % tstr(t)[:100])
+            if not contains(r_cred, base):
+                F.append(Finding("C03", "ga.returned-credential-differs", "the credential named in the response (%s) is not the credential whose key signs (%s)" %
+                                 (tstr(r_cred)[:60], tstr(base)[:60]), sc, lambda o: not_verifying(o) or bind(o).get("credential_held_for_rp") is not True, p))
+    # -- the signature that is returned
+    if not derives_from(r_sig, se["ret"], p):
+        F.append(Finding("C03", "ga.returned-signature-source", "the returned signature bytes do not come from the signature made on this path (%s)" % tstr(r_sig)[:80], sc, not_verifying, p))
+    return F
+
+
 def check_get_assertion(paths, ctx, want):
     """want: set of property ids to evaluate.  -> (findings, stats)"""
     F = []
@@ -329,6 +469,9 @@ def check_get_assertion(paths, ctx, want):
                     a0 = e["args"][0]
                     if not derives_from(a0, origin, p) and chase(a0)[0] != "ref":
                         F.append(Finding("C04", "ga.signs-with-other-credential", "the signing key does not come from the looked-up credential", None, None, p))
+
+        if "C03" in want and kind == "Ok":
+            F += assertion_binding_checks(p, ctx, payload, find, sign)
 
         if "C05" in want and find:
             i, e = find[0]
